@@ -35,8 +35,10 @@ PY
 detected=""
 cd /verif
 for P in $PROPS; do
-  r=$(VERIF_REPO="$D/repo" VERIF_SECS=${SEED_SECS:-12} VERIF_SCRATCH="$D" ./check "$P" --tier quick 2>/dev/null | grep -E "^(violation|check )" | cut -c1-300)
+  VERIF_REPO="$D/repo" VERIF_SECS=${SEED_SECS:-12} VERIF_SCRATCH="$D" ./check "$P" --tier quick >"$D/check.out" 2>"$D/check.err"; rc=$?
+  r=$(grep -E "^(violation|check )" "$D/check.out" | cut -c1-300)
   n=$(echo "$r" | grep -c "^violation")
+  if [ $rc -ge 2 ]; then n="INFRA-EXIT-$rc"; fi
   sigs=$(echo "$r" | grep "^violation" | sed 's/^violation \([^:]*\):.*/\1/' | sort -u | tr '\n' ' ')
   detected="$detected$P:$n[$sigs] "
 done
